@@ -25,6 +25,10 @@ def cases(tier, seed):
         Nc = (N if tier == "quick" else 5) if len(sh) == 2 else (3 if tier == "quick" else 4)
         out.append({"kind": "combine", "N": Nc, "shape": list(sh),
                     "name": f"factorize_2d/_combine_factorizations: {len(sh)} keys with {sh} labels, N={Nc}", "witness": sh == (2, 2)})
+    # (a') label spaces too large for the dense tracker: the hash-table branch of factorize_2d (typed dict keyed by the combined code)
+    for sh in ([(65600, 65536)] if tier == "quick" else [(65600, 65536), (70000, 70000), (2000, 1500, 1500)]):
+        out.append({"kind": "combine", "N": 3, "shape": list(sh),
+                    "name": f"factorize_2d/_combine_factorizations (hash-table tracker): {len(sh)} keys with {sh} labels, N=3"})
     # (b) monotonic fast path
     # datetime64 keys reach the kernel as datetime64 (NaT compares false both ways in numba, exactly like NaN): float64 stands for them
     for dt in ("float64", "int64"):
